@@ -1,7 +1,7 @@
 (* C18 - A merkle proof verifies only if it ties the transaction to a known header. *)
 From BR Require Import Base.Prelude Base.Compact Headers.Tree Headers.TreeBasics Headers.TreeInv
      Headers.TreeSteps Headers.TreeStream Headers.TreeProps Headers.TreeExample Headers.TreeLocator Blocks.Merkle
-     Blocks.MerkleProofs.
+     Blocks.MerkleProofs Blocks.MerkleIndex.
 Open Scope N_scope.
 
 (* a successful verification: the path recomputed the header's merkle root (path_ok), the header
@@ -43,10 +43,26 @@ Theorem C18_honest_proof_verifies : forall (H : N -> N -> N) l i, (i < length l)
   calc_root H (nth i l 0) (merkle_path H l i) i = merkle_root H l.
 Proof. exact path_verifies. Qed.
 Print Assumptions C18_honest_proof_verifies.
-(* Index alterations: an index bit inside the tree swaps the operands of one level (a different
-   root unless the two operands are equal, which CalculateRoot refuses as a bad index); bits
-   outside the tree are refused by the repaired VerifyMerkleProof (D19).  Both are decided by the
-   correspondence check, not proved here. *)
+(* ... and the index: every index bit inside the tree is pinned down.  Two indexes that recompute
+   the same root from the same transaction and path agree on every bit below the path length,
+   unless some level pairs a value with itself - then the altered index puts the value to the
+   right of its own duplicate, which CalculateRoot refuses as a bad index (a duplicate is only
+   ever the right operand of the value it copies) *)
+Theorem C18_alter_index : forall (H : N -> N -> N),
+  (forall a b c d, H a b = H c d -> a = c /\ b = d) ->
+  forall p x i j, distinct_operands H x p i -> calc_root H x p i = calc_root H x p j ->
+  forall k, (k < length p)%nat -> Nat.testbit i k = Nat.testbit j k.
+Proof. exact calc_root_binds_index. Qed.
+Print Assumptions C18_alter_index.
+
+(* bits at or above the path length do not enter the computation at all (the aliasing found as
+   D19): that is why the repaired VerifyMerkleProof has to refuse them itself; that it does is
+   decided by the correspondence check *)
+Theorem C18_high_index_bits_unread : forall (H : N -> N -> N) p x i j,
+  (forall k, (k < length p)%nat -> Nat.testbit i k = Nat.testbit j k) ->
+  calc_root H x p i = calc_root H x p j.
+Proof. exact calc_root_reads_low_bits. Qed.
+Print Assumptions C18_high_index_bits_unread.
 
 Example C18_example :
   verify_proof (final ex_cfg ex_g ex_ops) 3 true true = RVerify true 2 false /\
